@@ -1,7 +1,7 @@
 From Coq Require Import ZArith List Bool Lia.
 From Arsenal Require Import Util.
 From Arsenal Require Import Budget BudgetProofs.
-From Arsenal Require VamDev VamBlockList Vam VamInv VamInvThm VamProps VamAcct VamAcctThm VamDefrag VamDefragThm VamDefragAcct.
+From Arsenal Require VamDev VamBlockList Vam VamInv VamInvThm VamProps VamAcct VamAcctThm VamDefrag VamDefragThm VamDefragAcct VamAcctStep VamStats VamNpThm.
 Import ListNotations.
 Open Scope Z_scope.
 (* C04 — Allocator statistics and heap budget figures equal device ground truth.
@@ -109,4 +109,34 @@ Theorem C04_allocator_stats_equal_truth_defrag : forall c v run t,
   cfg_acct c -> VamDefragAcct.reachDA c v run -> exists d, type_dstats v t = Some d /\ basic d = type_truth v t.
 Proof. intros c v run t Ha. exact (VamDefragAcct.stats_equal_truth_defrag c Ha v run t). Qed.
 Print Assumptions C04_allocator_stats_equal_truth_defrag.
+(* CalculateStatistics completely: it never hits its final assertions, and for every memory type the detailed
+   statistics (blocks, allocations, bytes; allocation size min/max; unused range count/min/max) are those of the
+   live regions and free ranges of the blocks, pools and dedicated allocations of that type; every heap entry is
+   the aggregate (sums, minima, maxima) of the types of that heap, and the total the aggregate of all types. *)
+Theorem C04_allocator_calculate_statistics_truth : forall c v pt ph tot,
+  cfg_acct c -> reachA c v -> Vam.calculate_statistics c v = Some (pt, ph, tot) ->
+  (length pt = length (c_types c) /\
+   (forall i, (i < length (c_types c))%nat ->
+      exists d, List.nth_error pt i = Some d /\ basic d = type_truth v (Z.of_nat i) /\
+        VamStats.detail d (VamStats.type_alloc_sizes v (Z.of_nat i)) (VamStats.type_free_sizes v (Z.of_nat i)))) /\
+  (length ph = length (c_heaps c) /\
+   (forall h, (h < length (c_heaps c))%nat ->
+      exists d, List.nth_error ph h = Some d /\ VamStats.agg d (VamStats.heap_part c pt 0 (Z.of_nat h)))) /\
+  VamStats.agg tot pt.
+Proof.
+  intros c v pt ph tot Ha R.
+  apply VamStats.calculate_statistics_truth.
+  - apply reach_inv; [exact (ca_ok c Ha)|exact (reachA_reach c v R)].
+  - exact (VamNpThm.blocks_bounded_A c Ha v nil nil (reachA_inv c Ha v R)).
+Qed.
+Print Assumptions C04_allocator_calculate_statistics_truth.
+
+Theorem C04_allocator_calculate_statistics_some : forall c v,
+  cfg_acct c -> reachA c v -> exists pt ph tot, Vam.calculate_statistics c v = Some (pt, ph, tot).
+Proof.
+  intros c v Ha R. apply VamStats.calculate_statistics_some.
+  - apply reach_inv; [exact (ca_ok c Ha)|exact (reachA_reach c v R)].
+  - exact (VamNpThm.blocks_bounded_A c Ha v nil nil (reachA_inv c Ha v R)).
+Qed.
+Print Assumptions C04_allocator_calculate_statistics_some.
 End Allocator.
